@@ -50,9 +50,11 @@ def judge_densify(point, coords, resolution, out, wit, cls, sig, sample=None):
     # (2) original vertices retained in order, (3) added vertices lie on the segment they were inserted on
     i = 0  # next original vertex to be matched
     na = len(a)
+    t_prev = 0.0  # position of the previous added vertex along the current edge: added vertices must advance from p to q
     for j in range(len(b)):
         if i < na and b[j, 0] == a[i, 0] and b[j, 1] == a[i, 1]:
             i += 1
+            t_prev = 0.0
             continue
         if i == 0:
             return _mon.fail(point, wit({"why": "first vertex not retained"}), key="densify-vertices", cls=cls)
@@ -71,6 +73,9 @@ def judge_densify(point, coords, resolution, out, wit, cls, sig, sample=None):
         dist = abs(float(seg[0] * v[1] - seg[1] * v[0])) / L
         if dist > 1e-9 * scale + eps or not (-1e-9 <= t <= 1 + 1e-9):
             return _mon.fail(point, wit({"why": "added vertex off its edge", "vertex": b[j].tolist(), "edge": [p.tolist(), q.tolist()], "distance": dist, "t": t}), key="densify-off-edge", cls=cls)
+        if t < t_prev - 1e-9:
+            return _mon.fail(point, wit({"why": "added vertices run backwards along their edge", "vertex": b[j].tolist(), "edge": [p.tolist(), q.tolist()], "t": t, "t_previous": t_prev}), key="densify-backwards", cls=cls)
+        t_prev = t
     if i != na:
         return _mon.fail(point, wit({"why": "original vertex missing", "vertex": a[i].tolist(), "index": i}), key="densify-vertices", cls=cls)
     _mon.ok(point, cls=cls, sig=sig, sample=sample)
@@ -335,6 +340,58 @@ def drive_densify(mon: Monitor, rng: random.Random, n: int) -> None:
             pass
 
 
+def shared_edge_shapes(ox: float, oy: float, L: float):
+    """Geometries in which one edge occurs more than once within the same object, walked in either direction: mosaics of adjacent tiles, a polygon
+    together with its outline, a line retracing itself, a hole touching... (an edge's densification must not depend on where else the edge occurs)."""
+    import shapely.geometry as sg
+
+    def bx(i, j, w=1.0, h=1.0):
+        return sg.box(ox + i * L, oy + j * L, ox + (i + w) * L, oy + (j + h) * L)  # shapely's box(): (maxx,miny) first, counter-clockwise
+
+    def bx_cw(i, j):
+        return sg.Polygon([(ox + i * L, oy + j * L), (ox + i * L, oy + (j + 1) * L), (ox + (i + 1) * L, oy + (j + 1) * L), (ox + (i + 1) * L, oy + j * L)])
+
+    tri = sg.Polygon([(ox, oy), (ox + 3 * L, oy + 0.7 * L), (ox + 1.1 * L, oy + 2.6 * L)])
+    a, b, c = (ox, oy), (ox + 2.3 * L, oy + 1.1 * L), (ox + 2.0 * L, oy - 1.7 * L)
+    return {
+        "tiles-row": sg.MultiPolygon([bx(0, 0), bx(1, 0), bx(2, 0)]),
+        "tiles-col": sg.MultiPolygon([bx(0, 0), bx(0, 1), bx(0, 2)]),
+        "tiles-2x2": sg.MultiPolygon([bx(0, 0), bx(1, 0), bx(0, 1), bx(1, 1)]),
+        "tiles-2x2-cw": sg.MultiPolygon([bx_cw(1, 1), bx_cw(0, 1), bx_cw(1, 0), bx_cw(0, 0)]),
+        "tiles-mixed": sg.MultiPolygon([bx_cw(0, 0), bx(1, 0), bx_cw(1, 1)]),
+        "poly+outline": sg.GeometryCollection([tri, sg.LineString(list(tri.exterior.coords))]),
+        "outline-rev+poly": sg.GeometryCollection([sg.LineString(list(tri.exterior.coords)[::-1]), tri]),
+        "box+outline": sg.GeometryCollection([bx(0, 0, 2, 1), sg.LineString(list(bx(0, 0, 2, 1).exterior.coords)[::-1]), sg.LinearRing(list(bx(0, 0, 2, 1).exterior.coords)[:-1])]),
+        "retrace": sg.LineString([a, b, a, b, c, b]),
+        "retrace-rev": sg.LineString([b, a, b, c, b, a]),
+        "multiline-repeat": sg.MultiLineString([[a, b], [b, a], [a, b, c], [c, b]]),
+        "multiline-repeat-rev": sg.MultiLineString([[b, a], [a, b], [c, b, a]]),
+        "hole-is-neighbour": sg.MultiPolygon([sg.Polygon(bx(0, 0, 3, 3).exterior.coords, [list(bx(1, 1).exterior.coords)]), bx(1, 1)]),
+    }
+
+
+def drive_shared_edges(mon: Monitor, rng: random.Random, n_random: int) -> None:
+    """Deterministic part: every shape x resolutions that split each edge into 2..13 pieces, plain and through to_crs(resolution=); seeded part: other origins / sizes."""
+    from odc.geo import geom as G
+
+    def one(shp, L, crs, frac):
+        g = G.Geometry(shp, crs)
+        call(g.segmented, L * frac)
+        mon.obs["shared_edge_geometries"] += 1
+        if crs is not None and rng.random() < 0.5:
+            call(g.to_crs, "EPSG:3857" if crs != "EPSG:3857" else "EPSG:32633", L * frac)
+
+    for ox, oy, L, crs in [(0.0, 0.0, 1000.0, "EPSG:32633"), (500_000.0, 6_100_000.0, 12_000.0, "EPSG:32633"), (-3.0, 40.0, 0.5, "EPSG:4326"), (1.0, 2.0, 3.0, None)]:
+        for name, shp in shared_edge_shapes(ox, oy, L).items():
+            for frac in (0.45, 0.081, 0.3):
+                one(shp, L, crs, frac)
+    for _ in range(n_random):
+        L = rng.choice([1.0, 250.0, 1e4])
+        ox, oy = rng.uniform(-1e5, 1e5), rng.uniform(-1e5, 1e5)
+        shapes = shared_edge_shapes(ox, oy, L)
+        one(shapes[rng.choice(sorted(shapes))], L, rng.choice(["EPSG:32633", "EPSG:3857", None]), rng.uniform(0.05, 0.9))
+
+
 def drive_fine(mon: Monitor, rng: random.Random) -> None:
     """Very fine densification of long edges: a 185 km scene footprint at 50 m needs 3700 points per side."""
     import shapely.geometry as sg
@@ -511,6 +568,7 @@ def run(mon: Monitor, tier: str, seed: int, shard: int, nshards: int) -> None:
         q = tier == "quick"
         drive_densify(mon, rng, 5000 if q else 60000)
         drive_fine(mon, rng)
+        drive_shared_edges(mon, rng, 150 if q else 3000)
         drive_to_crs(mon, rng, 2500 if q else 40000)
         drive_lookalikes(mon, rng, 150 if q else 2500)
         drive_oneoff(mon, rng, 260 if q else 1500)
@@ -519,7 +577,7 @@ def run(mon: Monitor, tier: str, seed: int, shard: int, nshards: int) -> None:
         for pt, n in [("densify", 2000), ("Geometry.segmented", 2000), ("Geometry.to_crs", 1000), ("roundtrip", 200), ("densify|on-axis|vertical", 20), ("densify|far", 200),
                       ("densify|near-axis", 50), ("Geometry.to_crs|same-crs", 20), ("Geometry.to_crs|no-crs", 10), ("roundtrip|datum-shift", 20), ("roundtrip|same-datum", 100),
                       ("Geometry.to_crs|densified|Polygon", 10), ("Geometry.to_crs|MultiPolygon", 20), ("Geometry.to_crs|GeometryCollection", 20), ("Geometry.segmented|Polygon", 100),
-                      ("Geometry.segmented|LinearRing", 50), ("Geometry.to_crs|custom-crs|Polygon", 15), ("Geometry.to_crs|wrapdateline|densified|Polygon", 2), ("Geometry.to_crs|wrapdateline|densified|LineString", 2), ("Geometry.segmented|GeometryCollection", 50)]:
+                      ("Geometry.segmented|LinearRing", 50), ("Geometry.to_crs|custom-crs|Polygon", 15), ("Geometry.to_crs|wrapdateline|densified|Polygon", 2), ("Geometry.to_crs|wrapdateline|densified|LineString", 2), ("Geometry.segmented|GeometryCollection", 50), ("Geometry.segmented|MultiPolygon", 100), ("Geometry.segmented|MultiLineString", 40)]:
             mon.floor(pt, n)
     finally:
         detach_all()
